@@ -1,5 +1,21 @@
 /-
-Contracts.FileIso — C01 and C06 for molfile *texts* (AUDIT.md findings 4 and 9).
+Contracts.FileIso — C01 and C06 for molfile *texts* (AUDIT.md findings 4 and 9): two molfiles describing the same
+molecule — atom lines in any order, index values renumbered, identity spelled differently (`D` = `H MASS=2`,
+`MASS=0` = no `MASS=`), any coordinates / charges / keywords / bond types / bond order and direction / headers /
+line endings — are both READ (`.ok g`, `.ok g'`) and get ONE TUCAN string.
+
+ 1. `PosIso`, `liftPos`, `tucan_eq_of_posIso`   graph-level core: two graphs on the nodes `0 … n-1`, the second a
+                                               renumbering of the first ⇒ `IsIsoOn` ⇒ `Pipeline.C01_tucan`
+ 3. `Identity`, `identityOf`, `IdentityIso C C' σ`   the relation on V3000 connection tables
+    `C01_C06_ctab`, `C01_C06_texts` (any text with `splitlines text = fileLines C D`), `C01_C06_files` (`join sep`)
+    `identityIso_of_same`, `C06_reader_text_of_iso`   `Final.C06_reader_text` is the case `σ = id`
+ 4. `Redescribed` (atom / bond lines rewritten and listed in any order) ⇒ `∃ σ, IdentityIso`;
+    `Rendering`, `C01_C06_redescribed`; `Relisted` / `C01_files` (the words of C01); `Redrawn` / `C06_files`,
+    `ResonanceRedrawing` / `C06_resonance` (the words of C06)
+ 5. `V2000Parsed`, `C01_C06_v2000` (two V2000 files), `idFacts_of_atomLine` (the V2000 reader's atoms satisfy
+    `IdFacts`), `C01_C06_v3000_v2000` (generalises `Final.C08_agree` by `σ`)
+ 6. `splitlines_terminated`, `Rendering.of_terminated`   LF and CRLF mixed within one file
+Non-vacuity: `Contracts/FileIsoWitness.lean`.
 -/
 import Contracts.Final
 import Contracts.Reader
@@ -169,6 +185,7 @@ structure Identity where
   element : Str
   mass : Option Int
   rad : Option Int
+deriving DecidableEq
 
 /-- **the normalised identity of an atom line** (format rules: the symbols `D` and `T` denote hydrogen of mass 2
 and 3; otherwise the symbol is the element and `MASS=` gives the isotope mass; `RAD=` gives the radical state; an
